@@ -38,6 +38,14 @@
 (*   "MarkerFirst"     a reset stage persists its marker before its data   *)
 (*   "TipAlone"        the tip pointer is flushed in a batch of its own    *)
 (*                     before the block it points to                       *)
+(*   "JumpDropsGenesis" the state jump deletes the genesis record with its *)
+(*                     header although a chain shorter than one page is    *)
+(*                     re-walked down to genesis at start-up               *)
+(*                                                                         *)
+(* State-sync jump (JumpOn): the sink collects the sync point SP = MaxH-1, *)
+(* headers up to MaxH, the trie of SP together with its flat storage under *)
+(* the inactive prefix, and the last MTB blocks (any flushes in between),  *)
+(* then jumpToStateInternal runs its stages, each flushed synchronously.   *)
 (***************************************************************************)
 EXTENDS Integers, Sequences, FiniteSets, TLC
 
@@ -48,6 +56,7 @@ CONSTANTS MaxH,      \* canonical chain 0..MaxH
           MaxReset,  \* Reset calls per behaviour
           GCOn,      \* RemoveUntraceableBlocks
           MTB, GCP,  \* MaxTraceableBlocks, GarbageCollectionPeriod
+          JumpOn,    \* the node is a state-sync sink: it collects headers / trie / blocks and jumps to MaxH - 1
           Dev        \* set of named deviations
 
 VARIABLES disk,     \* the database
@@ -61,10 +70,12 @@ VARIABLES disk,     \* the database
           pend,     \* an asynchronous flush was requested and has not happened yet
           acc,      \* ghost: last accepted block (a completed reset to T makes it T)
           rst,      \* ghost: [start: disk when Reset was called, target]
-          confl,    \* ghost: every completed reset ended in ResetResult(start, target)
-          crashes, resets
+          confl,    \* ghost: every completed reset / jump ended in ResetResult / JumpResult of its start
+          crashes, resets,
+          sync,     \* RAM: progress of the state-sync collection ("idle", "c1" .. "c4")
+          jst       \* ghost: database when the jump started
 
-vars == <<disk, view, up, dead, sr, gcLast, pc, op, pend, acc, rst, confl, crashes, resets>>
+vars == <<disk, view, up, dead, sr, gcLast, pc, op, pend, acc, rst, confl, crashes, resets, sync, jst>>
 
 Other(p) == IF p = "A" THEN "B" ELSE "A"
 Max(a, b) == IF a > b THEN a ELSE b
@@ -102,9 +113,14 @@ StageInv(d) ==
     /\ d.stage \in {"r4", "r5"} => (d.flat[d.pfx] = d.sp /\ d.cur = d.sp /\ d.hdr = d.sp /\ above = {})
     /\ d.stage = "r5" => \A g \in d.roots : g <= d.sp
     /\ d.stage # "none" => d.sp >= 0
+    /\ d.stage \in {"j1", "j2", "j3"} => (d.sp < d.hdr /\ d.sp \in d.mpt /\ d.sp \in d.blk)
+    /\ d.stage = "j1" => d.flat[Other(d.pfx)] = d.sp
+    /\ d.stage = "j2" => d.flat[d.pfx] = d.sp
+    /\ d.stage = "j3" => (d.flat[d.pfx] = d.sp /\ d.cur = d.sp)
 
 \* DESIGN A.4: what must hold of the database between any two batches when no reset / jump is recorded
-Coherent(d) == (d.ver /\ d.stage = "none") => (ObsOK(d) /\ WalkOK(d))
+Coherent(d) == (d.ver /\ d.stage = "none") =>
+                 (WalkOK(d) /\ (ObsOK(d) \/ (d.sp >= 0 /\ d.cur < d.sp /\ d.cur = 0)))
 
 ----------------------------------------------------------------------------
 HdrAdd(v, h) == [v EXCEPT !.hdo = @ \cup {h}, !.hdr = h,
@@ -116,19 +132,23 @@ BlkAdd(v, h) == LET v1 == IF v.hdr < h THEN HdrAdd(v, h) ELSE v IN
 
 Idle == up /\ ~dead /\ pc = <<>>
 
-AddHeader == /\ Idle /\ view.hdr < MaxH /\ view.hdr < view.cur + Ahead
+\* a sink that has not jumped yet does not process blocks in the regular way
+Collecting(d) == d.stage = "none" /\ d.sp >= 0 /\ d.cur < d.sp
+Regular == ~JumpOn \/ (view.sp >= 0 /\ view.cur >= view.sp)
+
+AddHeader == /\ Idle /\ Regular /\ view.hdr < MaxH /\ view.hdr < view.cur + Ahead
              /\ view' = HdrAdd(view, view.hdr + 1)
-             /\ UNCHANGED <<disk, up, dead, sr, gcLast, pc, op, pend, acc, rst, confl, crashes, resets>>
+             /\ UNCHANGED <<disk, up, dead, sr, gcLast, pc, op, pend, acc, rst, confl, crashes, resets, sync, jst>>
 
 \* the single state-transition path; a node whose state-root module was never initialised panics here
-AddBlock == /\ Idle /\ view.cur < MaxH
+AddBlock == /\ Idle /\ Regular /\ view.cur < MaxH
             /\ IF sr
                  THEN /\ view' = BlkAdd(view, view.cur + 1)
                       /\ acc' = Max(acc, view.cur + 1)
                       /\ dead' = dead
                  ELSE /\ dead' = TRUE
                       /\ UNCHANGED <<view, acc>>
-            /\ UNCHANGED <<disk, up, sr, gcLast, pc, op, pend, rst, confl, crashes, resets>>
+            /\ UNCHANGED <<disk, up, sr, gcLast, pc, op, pend, rst, confl, crashes, resets, sync, jst>>
 
 ----------------------------------------------------------------------------
 (* persist() followed by tryRunGC(oldPersisted) - the timer branch of Run() *)
@@ -144,18 +164,18 @@ Flush == /\ Idle /\ view # disk
                         THEN /\ pc' = <<"gc_mpt", "gc_blocks", "gc_pages">>
                              /\ op' = [NoOp EXCEPT !.kind = "gc", !.tgt = GCTarget(view.cur), !.newP = view.cur \div GCP]
                         ELSE UNCHANGED <<pc, op>>
-         /\ UNCHANGED <<view, up, dead, sr, gcLast, pend, acc, rst, confl, crashes, resets>>
+         /\ UNCHANGED <<view, up, dead, sr, gcLast, pend, acc, rst, confl, crashes, resets, sync, jst>>
 
 Rest == /\ up /\ ~dead /\ pc # <<>> /\ Head(pc) = "rest"
         /\ disk' = view /\ pc' = <<>> /\ op' = NoOp
-        /\ UNCHANGED <<view, up, dead, sr, gcLast, pend, acc, rst, confl, crashes, resets>>
+        /\ UNCHANGED <<view, up, dead, sr, gcLast, pend, acc, rst, confl, crashes, resets, sync, jst>>
 
 \* stateRoot.GC(tgt): trie nodes that stopped being referenced at or below tgt go; roots >= tgt stay complete
 GCMpt == /\ up /\ ~dead /\ pc # <<>> /\ Head(pc) = "gc_mpt"
          /\ disk' = [disk EXCEPT !.mpt = {g \in @ : g >= op.tgt}]
          /\ view' = [view EXCEPT !.mpt = {g \in @ : g >= op.tgt}]
          /\ pc' = Tail(pc)
-         /\ UNCHANGED <<up, dead, sr, gcLast, op, pend, acc, rst, confl, crashes, resets>>
+         /\ UNCHANGED <<up, dead, sr, gcLast, op, pend, acc, rst, confl, crashes, resets, sync, jst>>
 
 \* removeUntraceableBlocks: into the write cache only
 RubLimit == LET t == op.tgt IN
@@ -167,7 +187,7 @@ GCBlocks == /\ up /\ ~dead /\ pc # <<>> /\ Head(pc) = "gc_blocks"
                ELSE /\ view' = [view EXCEPT !.blk = @ \ gone, !.hdo = @ \ gone]
                     /\ gcLast' = t
             /\ pc' = Tail(pc)
-            /\ UNCHANGED <<disk, up, dead, sr, op, pend, acc, rst, confl, crashes, resets>>
+            /\ UNCHANGED <<disk, up, dead, sr, op, pend, acc, rst, confl, crashes, resets, sync, jst>>
 
 \* removeOldHeaderHashes(tgt): directly on the backend
 PageTill == LET till == ((op.tgt + 1) \div Page - 1) * Page IN
@@ -179,7 +199,7 @@ GCPages == /\ up /\ ~dead /\ pc # <<>> /\ Head(pc) = "gc_pages"
                      /\ view' = [view EXCEPT !.pages = {p \in @ : p > PageTill}]
                 ELSE UNCHANGED <<disk, view>>
            /\ pc' = Tail(pc) /\ op' = NoOp
-           /\ UNCHANGED <<up, dead, sr, gcLast, pend, acc, rst, confl, crashes, resets>>
+           /\ UNCHANGED <<up, dead, sr, gcLast, pend, acc, rst, confl, crashes, resets, sync, jst>>
 
 ----------------------------------------------------------------------------
 (* Reset(T): resetStateInternal.  Stage names follow the markers on disk:                                   *)
@@ -227,7 +247,7 @@ Norm(d) == [ver |-> d.ver, cur |-> d.cur, hdr |-> d.hdr, blk |-> d.blk, hdo |-> 
             stage |-> d.stage, sp |-> d.sp, xfer |-> d.xfer]
 
 Reset(T) ==
-    /\ Idle /\ view = disk /\ disk.ver /\ resets < MaxReset /\ ~GCOn
+    /\ Idle /\ view = disk /\ disk.ver /\ resets < MaxReset /\ ~GCOn /\ ~JumpOn
     /\ T \in 0..disk.cur /\ ~(T = disk.cur /\ disk.hdr = disk.cur)
     /\ T \in disk.blk /\ T \in disk.roots /\ T \in disk.mpt
     /\ view' = [view EXCEPT !.sp = T]
@@ -235,7 +255,7 @@ Reset(T) ==
     /\ pc' = Steps("none")
     /\ rst' = [start |-> disk, target |-> T]
     /\ resets' = resets + 1
-    /\ UNCHANGED <<disk, up, dead, sr, gcLast, pend, acc, confl, crashes>>
+    /\ UNCHANGED <<disk, up, dead, sr, gcLast, pend, acc, confl, crashes, sync, jst>>
 
 Work ==
     /\ up /\ ~dead /\ pc # <<>> /\ op.kind = "reset"
@@ -248,17 +268,17 @@ Work ==
        /\ disk' = IF "MarkerFirst" \in Dev /\ s \in {"w_r2", "w_r3", "w_r4", "w_r5"} /\ ~pend
                     THEN [disk EXCEPT !.stage = view'.stage] ELSE disk
     /\ pc' = Tail(pc)
-    /\ UNCHANGED <<up, dead, gcLast, op, pend, acc, rst, confl, crashes, resets>>
+    /\ UNCHANGED <<up, dead, gcLast, op, pend, acc, rst, confl, crashes, resets, sync, jst>>
 
 \* hand the cache to the persisting routine: blocks while the previous flush is still running
 Send == /\ up /\ ~dead /\ pc # <<>> /\ Head(pc) = "send" /\ ~pend
         /\ pend' = TRUE /\ pc' = Tail(pc)
-        /\ UNCHANGED <<disk, view, up, dead, sr, gcLast, op, acc, rst, confl, crashes, resets>>
+        /\ UNCHANGED <<disk, view, up, dead, sr, gcLast, op, acc, rst, confl, crashes, resets, sync, jst>>
 
 \* the persisting routine: ONE batch with whatever the cache holds at that moment
 DoPersist == /\ up /\ ~dead /\ pend
              /\ disk' = view /\ pend' = FALSE
-             /\ UNCHANGED <<view, up, dead, sr, gcLast, pc, op, acc, rst, confl, crashes, resets>>
+             /\ UNCHANGED <<view, up, dead, sr, gcLast, pc, op, acc, rst, confl, crashes, resets, sync, jst>>
 
 \* direct SeekGC of the stale storage prefix: runs while the previous stage's flush may still be pending
 ResetGC == /\ up /\ ~dead /\ pc # <<>> /\ Head(pc) = "gc" /\ op.kind = "reset"
@@ -266,11 +286,11 @@ ResetGC == /\ up /\ ~dead /\ pc # <<>> /\ Head(pc) = "gc" /\ op.kind = "reset"
            /\ view' = W_gc(view)
            /\ sr' = IF op.resume /\ "R5NoRootInit" \notin Dev THEN TRUE ELSE sr
            /\ pc' = Tail(pc)
-           /\ UNCHANGED <<up, dead, gcLast, op, pend, acc, rst, confl, crashes, resets>>
+           /\ UNCHANGED <<up, dead, gcLast, op, pend, acc, rst, confl, crashes, resets, sync, jst>>
 
 Wait == /\ up /\ ~dead /\ pc # <<>> /\ Head(pc) = "wait" /\ ~pend
         /\ pc' = Tail(pc)
-        /\ UNCHANGED <<disk, view, up, dead, sr, gcLast, op, pend, acc, rst, confl, crashes, resets>>
+        /\ UNCHANGED <<disk, view, up, dead, sr, gcLast, op, pend, acc, rst, confl, crashes, resets, sync, jst>>
 
 \* resetRAMState(T, true); a fresh Reset is a command-line process that exits, a resumed one goes on as a node
 Ram == /\ up /\ ~dead /\ pc # <<>> /\ Head(pc) = "ram"
@@ -280,18 +300,75 @@ Ram == /\ up /\ ~dead /\ pc # <<>> /\ Head(pc) = "ram"
        /\ acc' = op.T
        /\ gcLast' = 0
        /\ confl' = (confl /\ disk = ResetResult(rst.start, rst.target) /\ Norm(disk) = Norm(SyncTo(op.T)))
-       /\ UNCHANGED <<disk, view, sr, pend, rst, crashes, resets>>
+       /\ UNCHANGED <<disk, view, sr, pend, rst, crashes, resets, sync, jst>>
+
+
+----------------------------------------------------------------------------
+(* State synchronisation and the jump (statesync.Module + jumpToStateInternal).  Markers: j1 stateJumpStarted, *)
+(* j2 newStorageItemsAdded, j3 staleBlocksRemoved.                                                           *)
+SP == MaxH - 1
+SyncBlocks == Max(1, SP - MTB + 1)..SP
+
+RECURSIVE HdrsTo(_, _)
+HdrsTo(v, h) == IF v.hdr >= h THEN v ELSE HdrsTo(HdrAdd(v, v.hdr + 1), h)
+
+\* one round of the (restartable, idempotent) collection; Flush may happen between any two rounds
+Collect ==
+    /\ JumpOn /\ Idle /\ view.ver /\ view.cur = 0 /\ view.stage = "none" /\ sync # "c4"
+    /\ \/ /\ sync = "idle" /\ sync' = "c1"                         \* Init: sync point recorded, genesis trie removed
+          /\ view' = [view EXCEPT !.sp = SP, !.mpt = @ \ {0}]
+       \/ /\ sync = "c1" /\ sync' = "c2"                           \* headers beyond the sync point
+          /\ view' = HdrsTo(view, MaxH)
+       \/ /\ sync = "c2" /\ sync' = "c3"                           \* trie of SP, its items under the inactive prefix
+          /\ view' = [view EXCEPT !.mpt = @ \cup {SP}, !.flat = [@ EXCEPT ![Other(view.pfx)] = SP]]
+       \/ /\ sync = "c3" /\ sync' = "c4"                           \* the last MTB blocks (no execution)
+          /\ view' = [view EXCEPT !.blk = @ \cup SyncBlocks, !.hdo = @ \ SyncBlocks]
+    /\ acc' = IF sync = "c3" THEN Max(acc, SP) ELSE acc
+    /\ UNCHANGED <<disk, up, dead, sr, gcLast, pc, op, pend, rst, confl, crashes, resets, jst>>
+
+JumpSteps(stage) == CASE stage = "none" -> <<"j_mark", "j_switch", "j_clean", "j_fin">>
+                      [] stage = "j1"   -> <<"j_switch", "j_clean", "j_fin">>
+                      [] stage = "j2"   -> <<"j_clean", "j_fin">>
+                      [] stage = "j3"   -> <<"j_fin">>
+
+J_mark(v)      == [v EXCEPT !.stage = "j1"]
+J_switch(v)    == [v EXCEPT !.pfx = Other(v.pfx), !.stage = "j2"]
+J_clean(v, T)  == [v EXCEPT !.flat = [@ EXCEPT ![Other(v.pfx)] = -1], !.cur = T,
+                            !.blk = IF T - MTB > 0 THEN @ \ {0} ELSE @,
+                            !.hdo = IF T - MTB > 0 /\ "JumpDropsGenesis" \notin Dev THEN @ \cup {0} ELSE @,
+                            !.stage = "j3"]
+J_fin(v, T)    == [v EXCEPT !.roots = @ \cup {T}, !.xfer = T, !.stage = "none"]
+JumpResult(d0) == J_fin(J_clean(J_switch(J_mark(d0)), d0.sp), d0.sp)
+
+\* the last block of the collection is flushed synchronously, then the jump starts
+JumpStart == /\ JumpOn /\ Idle /\ sync = "c4" /\ view = disk
+             /\ pc' = JumpSteps("none") /\ op' = [NoOp EXCEPT !.kind = "jump", !.T = SP]
+             /\ jst' = disk /\ sync' = "idle"
+             /\ UNCHANGED <<disk, view, up, dead, sr, gcLast, pend, acc, rst, confl, crashes, resets>>
+
+\* every jump stage is flushed synchronously: one batch per stage
+JStep == /\ up /\ ~dead /\ pc # <<>> /\ op.kind = "jump"
+         /\ LET s == Head(pc)
+                v == CASE s = "j_mark" -> J_mark(view) [] s = "j_switch" -> J_switch(view)
+                       [] s = "j_clean" -> J_clean(view, op.T) [] s = "j_fin" -> J_fin(view, op.T) IN
+            /\ view' = v /\ disk' = v
+            /\ IF s = "j_fin"
+                 THEN /\ sr' = TRUE /\ op' = NoOp                       \* stateRoot.JumpToState, resetRAMState
+                      /\ confl' = (confl /\ v = JumpResult(jst))
+                 ELSE UNCHANGED <<sr, op, confl>>
+         /\ pc' = Tail(pc)
+         /\ UNCHANGED <<up, dead, gcLast, pend, acc, rst, crashes, resets, sync, jst>>
 
 ----------------------------------------------------------------------------
 Crash == /\ up /\ ~dead /\ crashes < MaxCrash
          /\ up' = FALSE /\ pc' = <<>> /\ op' = NoOp /\ pend' = FALSE /\ sr' = FALSE /\ view' = disk /\ gcLast' = 0
-         /\ crashes' = crashes + 1
-         /\ UNCHANGED <<disk, dead, acc, rst, confl, resets>>
+         /\ crashes' = crashes + 1 /\ sync' = "idle"
+         /\ UNCHANGED <<disk, dead, acc, rst, confl, resets, jst>>
 
 \* clean stop: flush, then down (Close)
 Stop == /\ Idle /\ ~pend
-        /\ disk' = view /\ up' = FALSE /\ sr' = FALSE /\ gcLast' = 0
-        /\ UNCHANGED <<view, dead, pc, op, pend, acc, rst, confl, crashes, resets>>
+        /\ disk' = view /\ up' = FALSE /\ sr' = FALSE /\ gcLast' = 0 /\ sync' = "idle"
+        /\ UNCHANGED <<view, dead, pc, op, pend, acc, rst, confl, crashes, resets, jst>>
 
 \* init()
 Restart ==
@@ -306,17 +383,24 @@ Restart ==
               /\ up' = TRUE /\ sr' = TRUE
               /\ gcLast' = IF disk.pages = {} THEN 0 ELSE MinSet(disk.pages)
               /\ UNCHANGED <<pc, op>>
+       ELSE IF disk.stage \in {"j1", "j2", "j3"}
+         THEN /\ up' = TRUE /\ sr' = FALSE /\ gcLast' = 0
+              /\ dead' = ~(disk.sp < disk.hdr)                                  \* "invalid state sync point"
+              /\ pc' = JumpSteps(disk.stage)
+              /\ op' = [NoOp EXCEPT !.kind = "jump", !.T = disk.sp, !.resume = TRUE]
        ELSE   /\ up' = TRUE /\ sr' = FALSE /\ dead' = FALSE /\ gcLast' = 0
               /\ pc' = Steps(disk.stage)
               /\ op' = [NoOp EXCEPT !.kind = "reset", !.T = disk.sp, !.curH = disk.cur, !.hdrH = disk.hdr, !.resume = TRUE]
-    /\ UNCHANGED <<disk, pend, acc, rst, confl, crashes, resets>>
+    /\ UNCHANGED <<disk, pend, acc, rst, confl, crashes, resets, sync, jst>>
 
 Init == /\ disk = EmptyDisk /\ view = Genesis /\ up = TRUE /\ dead = FALSE /\ sr = TRUE /\ gcLast = 0
         /\ pc = <<>> /\ op = NoOp /\ pend = FALSE /\ acc = 0
         /\ rst = [start |-> EmptyDisk, target |-> -1] /\ confl = TRUE /\ crashes = 0 /\ resets = 0
+        /\ sync = "idle" /\ jst = EmptyDisk
 
 Next == \/ AddHeader \/ AddBlock \/ Flush \/ Rest \/ GCMpt \/ GCBlocks \/ GCPages
         \/ (\E T \in 0..MaxH : Reset(T)) \/ Work \/ Send \/ DoPersist \/ ResetGC \/ Wait \/ Ram
+        \/ Collect \/ JumpStart \/ JStep
         \/ Crash \/ Stop \/ Restart
 
 Spec == Init /\ [][Next]_vars
@@ -328,13 +412,13 @@ NoDead == ~dead
 \* the database never holds a height above the last accepted block
 HeightBound == disk.cur <= acc
 \* a node that is up and not in the middle of resuming answers with the state of its height and can go on
-RecoverOK == Idle => (ObsOK(view) /\ WalkOK(view) /\ sr)
+RecoverOK == (Idle /\ ~Collecting(view)) => (ObsOK(view) /\ WalkOK(view) /\ sr)
 \* between any two batches, with no reset recorded, the database is coherent
 DiskCoherent == Coherent(disk)
 \* interrupted or not, a reset ends in the same database, which is that of a node synchronised to T only
 ResetConfluence == confl
 \* while a reset is recorded on disk its target stays recoverable
 ResumeOK == (disk.ver /\ disk.stage # "none") =>
-                (disk.sp \in disk.blk /\ disk.sp \in disk.roots /\ disk.sp \in disk.mpt)
+                (disk.sp \in disk.blk /\ disk.sp \in disk.mpt /\ (disk.stage \in {"r1", "r2", "r3", "r4", "r5"} => disk.sp \in disk.roots))
 MarkersFollowData == StageInv(disk)
 =============================================================================
